@@ -178,7 +178,7 @@ func (s *session) regRun(w *rec.Writer, sc RegScenario) error {
 	// two requests every active plugin subscribed to them must see - and nobody else
 	s.timedRequest(r, "c1", fmt.Sprintf("g%d-1", s.run), "CreateContainer", len(sc.Attempts))
 	s.timedRequest(r, "c1", fmt.Sprintf("g%d-2", s.run), "StartContainer", len(sc.Attempts))
-	s.ev("End", "stuck", []string{})
+	s.ev("End", "stuck", []string{}, "hung", []string{})
 	vhook.Set(nil)
 	return w.WriteScenario(s.log.Events())
 }
@@ -258,7 +258,7 @@ func (s *session) socketRun(w *rec.Writer) error {
 			os.RemoveAll(root)
 		}
 	}
-	s.ev("End", "stuck", []string{})
+	s.ev("End", "stuck", []string{}, "hung", []string{})
 	return w.WriteScenario(s.log.Events())
 }
 
